@@ -44,7 +44,7 @@ def sh(*a, **k):
 def run_one(job):
     mut, slot, tier, suite, workers = job
     mid, props, f, old, new, note = mut
-    scr = f"/tmp/dfmutrun_{slot}"
+    scr = f"/tmp/dfmutrun_{os.getpid()}_{slot}"
     head = sh("git", "-C", "/repo", "rev-parse", "HEAD").stdout.strip()
     if not os.path.isdir(scr):
         sh("git", "-C", "/repo", "worktree", "add", "-q", "--detach", scr, head)
@@ -67,7 +67,7 @@ def run_one(job):
         res["checks"] = {}
         for prop in props:
             env = dict(os.environ, DFMON_REPO=scr, DFMON_NO_EVIDENCE="1",
-                       DFMON_REPLAY_DIR=f"/tmp/dfmutrun_replays_{slot}")
+                       DFMON_REPLAY_DIR=f"/tmp/dfmutrun_replays_{os.getpid()}_{slot}")
             t0 = time.time()
             cmd = ["/verif/check", prop, "--tier", tier, "--no-ambient"]
             if workers:
@@ -135,8 +135,8 @@ def main():
                     r["suite"] = prev["suite"]
                 results[r["id"]] = r
     for slot in by_slot:
-        sh("git", "-C", "/repo", "worktree", "remove", "--force", f"/tmp/dfmutrun_{slot}")
-        sh("rm", "-rf", f"/tmp/dfmutrun_replays_{slot}")
+        sh("git", "-C", "/repo", "worktree", "remove", "--force", f"/tmp/dfmutrun_{os.getpid()}_{slot}")
+        sh("rm", "-rf", f"/tmp/dfmutrun_replays_{os.getpid()}_{slot}")
     json.dump(results, open(args.out, "w"), indent=1, sort_keys=True)
     missed = [r["id"] for r in results.values() if r["id"] in ids and
               not any(c["verdict"] == "CAUGHT" for c in r.get("checks", {}).values())]
